@@ -33,12 +33,17 @@ MANIFEST = dict(
          "C09_list_order, C09_string_order, C09_arg_order, C09_innermost_binding. C09_errors_partial: runtime errors of "
          "the reference are errors of the same kind on the machine (struct literals excluded, format specifiers assumed "
          "total); C09_no_stuck_partial / C09_no_stuck_on_error_partial: no panic on runs whose reference outcome is a "
-         "value or an error. NOT proved: absence of panics for ALL well-typed programs (needs the type system of C02 "
+         "value or an error. Cross-area composition (Props/C01C09.v): with the primitive operations instantiated by the "
+         "dimension-level arithmetic of the type-checker area (Dim/Run.v), the model machine running the model-compiled "
+         "program of the shared let/expression fragment ends with every global holding a quantity of exactly the "
+         "dimension the type-checker model inferred (C01_C09_composition_partial), and never panics "
+         "(C09_no_stuck_typed_fragment). NOT proved: absence of panics for ALL well-typed programs (needs the type system of C02 "
          "and a treatment of diverging runs, see design/vm.md). The two former findings (function values re-bound by a "
          "redefinition; silent truncation of 16 bit jump offsets) are repaired in numbat and kept as regression "
          "examples. The model is tied to the code on every run: the model compiler's output is compared instruction "
          "by instruction with the real compiler's (hook dump), and model machine / reference evaluator / "
-         "implementation results are compared on generated well-typed programs and multi-input sessions (with "
+         "implementation results are compared on generated well-typed programs (incl. dimension / base-unit definitions, "
+         "quantities with units, type(…)) and multi-input sessions (with "
          "failing inputs that must be rolled back); the reference evaluator is the oracle.",
     design_ref="DESIGN.md §6 C09, design/vm.md",
     note="Trusted: Coq kernel + vm_compute; the hand ports Compile.v/Machine.v (validated every run by the opcode-level "
